@@ -180,7 +180,9 @@ PLANS = {
                 "the slice faults and the SIGSEGV handler attributes it to the journaled case; (2) the crate's generic vector algorithms run on "
                 "4/8-lane checked vectors and on emulated NEON/simd128 vectors whose every load is checked against the registered haystack region "
                 "and whose aligned loads are checked for alignment - exhaustively over alignment x length x match layout, all match bitmaps, all "
-                "small needle/pair/haystack combinations incl. haystacks below min_haystack_len (documented panic caught). "
+                "small needle/pair/haystack combinations incl. haystacks below min_haystack_len (documented panic caught), and with FOREIGN needles handed to "
+                "the low-level Two-Way / Rabin-Karp / packed-pair finders at search time (longer than the haystack with the haystack as prefix, same length with another "
+                "last byte, doubled, shortened, the haystack's tail). "
                 "(3) the same passes in builds WITHOUT debug assertions and overflow checks (native at three levels, emulated NEON/simd128), where no "
                 "debug_assert! can pre-empt a bad load; (4) Miri for five targets over generated case files; (5, thorough) libFuzzer + ASan. "
                 "Non-trivial: the call performs at least one multi-byte load with an unaligned end or a placement against a guard page.",
@@ -205,7 +207,7 @@ PLANS = {
     "C09": {
         "rule": "One natively generated case file (byte search, byte iterators with generated next/next_back/count call patterns, substring search incl. "
                 "every building block and complete iterator sequences, packed pair with explicit offsets on both sides of min_haystack_len, is_equal/"
-                "is_prefix/is_suffix, finder histories) is executed by `mvexec` built as: native at three forced CPU levels (AVX2 / SSE2 only / neither), "
+                "is_prefix/is_suffix, finder histories, and long periodic haystacks of 2-20 KB with the needle every 1..64 bytes) is executed by `mvexec` built as: native at three forced CPU levels (AVX2 / SSE2 only / neither), "
                 "--no-default-features, alloc only, -C target-feature=+avx2, plain release (no debug assertions), emulated NEON / simd128 / no-SIMD wiring, "
                 "and interpreted by Miri for x86_64 (SSE2), x86_64+avx2, aarch64 (real NEON intrinsics), i686 and big-endian s390x (SWAR fallback). "
                 "The judge puts every observation into an equivalence class (first position, last position, count, iterator sequence, leftmost / rightmost "
